@@ -243,6 +243,11 @@ def same_kind_eq(state, a, b):
     if is_stringy(a) and is_stringy(b):
         if isinstance(a, Rope) or isinstance(b, Rope):
             ra, rb = rope_of(a), rope_of(b)
+            # a single symbolic character against a literal
+            for x, y in ((ra, rb), (rb, ra)):
+                if len(x.pieces) == 1 and isinstance(x.pieces[0], Chr) and y.is_concrete():
+                    yl = y.concrete()
+                    return (x.pieces[0].cp == ord(yl)) if len(yl) == 1 else False
             if len(ra.pieces) == len(rb.pieces) and all(_piece_same(p, q) for p, q in zip(ra.pieces, rb.pieces)):
                 return True
             raise OutOfSubset("equality of built strings")
@@ -369,7 +374,7 @@ def str_of(state, v):
         raise OutOfSubset("str() of optional built string")
     if isinstance(v, (Tok, Chr, Dec, Fmt)):
         return Rope((v,))
-    if isinstance(v, ClassVal) or (isinstance(v, Ref) and isinstance(state.obj(v), RecObj)):
+    if isinstance(v, ClassVal) or isinstance(v, Ref):
         from .values import fresh_name
         return z3.Const(fresh_name("str.of.object"), StrSort)     # message text: opaque
     raise OutOfSubset(f"str() of {v!r}")
